@@ -7,7 +7,7 @@
    variant [carry_mappings true] and no other (source_variant_unique). *)
 From Coq Require Import ZArith List Bool Lia Arith.
 From Batchie Require Import Lib.Sexp Lib.PyRt Generated.Consts Generated.SrcArith Model.Encode Model.Screen Model.Reveal
-  Model.Holdout Generated.SrcReveal Proofs.PyRtLemmas Proofs.C03Base Proofs.C03Screen Proofs.C03Frozen Proofs.C03Witness.
+  Model.Holdout Generated.SrcReveal Proofs.PyRtLemmas Proofs.C03Base Proofs.C03Screen Proofs.C12Reveal Proofs.C03Frozen Proofs.C03Witness.
 Import ListNotations.
 Open Scope Z_scope.
 
@@ -311,4 +311,14 @@ Proof.
   rewrite put_cols_norm, (mk_screen_unfold (norm_rows og mg rows)).
   rewrite (arity_ok_treats a rows (norm_rows og mg rows)) by apply norm_rows_treats.
   rewrite Ea. cbn [negb andb]. cbv zeta. rewrite norm_rows_tt, U. reflexivity.
+Qed.
+
+(* ---------- the arrays of one screen are aligned ---------- *)
+Lemma source_arrays_aligned s ids :
+  plates_encoded s ->
+  length (np_isin (s_pids s) ids) = length (s_rows s) /\ length (col_obs s) = length (s_rows s) /\
+  length (col_mask s) = length (s_rows s) /\ length (np_or (col_mask s) (np_isin (s_pids s) ids)) = length (s_rows s).
+Proof.
+  intros H. apply plates_encoded_length in H. unfold np_isin, col_obs, col_mask, np_or.
+  rewrite !map_length, combine_length, !map_length, H. repeat split; try reflexivity. apply Nat.min_id.
 Qed.
